@@ -163,6 +163,9 @@ class Script(object):
 # socket
 # =============================================================================================
 
+RESET_SHUTDOWN_FAILS = [True]
+
+
 class FakeSocket(object):
     _sx_accepts_symbolic = True
 
@@ -180,6 +183,7 @@ class FakeSocket(object):
         self.fd = 100 + self.id
         w.fd_map[self.fd] = self
         self.tls_buf = 0            # bytes already decrypted inside the TLS object (C18 model)
+        self.reset = False          # a socket error was reported on recv/sendall: the connection is gone
 
     # -- plumbing
     def setsockopt(self, *a):
@@ -206,7 +210,9 @@ class FakeSocket(object):
             data = mk_bytes(data._get())
         try:
             self.w.op('sendall', self)
-        except BaseException:
+        except BaseException as e:
+            if isinstance(e, _socket.error):
+                self.reset = True
             self.w.log.append(('write-failed', self.id, data))
             raise
         self.w.log.append(('write', self.id, data))
@@ -237,6 +243,7 @@ class FakeSocket(object):
             n = n.concretize()
         if s.remaining() == 0:
             if s.end == 'error':
+                self.reset = True
                 raise _socket.error(104, 'Connection reset by peer (injected)')
             if s.end == 'exception':
                 raise RuntimeError('injected non-socket exception')
@@ -249,8 +256,15 @@ class FakeSocket(object):
         s.pos += k
         return chunk
 
+    def _recv_op(self):
+        try:
+            self.w.op('recv', self)
+        except _socket.error:
+            self.reset = True
+            raise
+
     def recv_into(self, buf, n=0):
-        self.w.op('recv', self)
+        self._recv_op()
         if not n:
             n = len(buf)
         chunk = self._take(n)
@@ -267,7 +281,7 @@ class FakeSocket(object):
         return k
 
     def recv(self, n):
-        self.w.op('recv', self)
+        self._recv_op()
         chunk = self._take(n)
         self.w.log.append(('recv', self.id, len(chunk)))
         return mk_bytes(chunk)
@@ -275,6 +289,12 @@ class FakeSocket(object):
     def shutdown(self, how):
         self.w.op('shutdown', self)
         self.shutdown_calls += 1
+        if self.reset and RESET_SHUTDOWN_FAILS[0]:
+            # Linux: once a connection has been reset (ECONNRESET / EPIPE reported on recv or send) the socket is no
+            # longer connected and shutdown() raises ENOTCONN; the descriptor stays open until close()
+            # (observed with real loopback sockets: design_probes/rst_shutdown.py)
+            self.w.log.append(('shutdown-enotconn', self.id))
+            raise _socket.error(107, 'Transport endpoint is not connected')
         self.w.log.append(('shutdown', self.id))
 
     def close(self):
